@@ -198,17 +198,25 @@ func (c *ArrivalConn) Read(p []byte) (int, error) {
 		if !m.Serial && !c.deadline.IsZero() {
 			wait = time.Until(c.deadline)
 		}
+		// a blocking read returns as soon as bytes arrive: if the pending reply becomes readable within the time this read may block,
+		// it waits exactly that long and delivers
+		arrives := len(c.pending) > 0 && !c.readyAt.IsZero() && time.Until(c.readyAt) <= wait
+		if arrives {
+			wait = time.Until(c.readyAt)
+		}
 		m.mu.Unlock()
 		if wait > 0 {
 			time.Sleep(wait)
 		}
 		m.mu.Lock()
-		c.busy--
-		m.mu.Unlock()
-		if m.Serial {
-			return 0, nil
+		if !arrives || c.closed || len(c.pending) == 0 {
+			c.busy--
+			m.mu.Unlock()
+			if m.Serial {
+				return 0, nil
+			}
+			return 0, ErrTimeout
 		}
-		return 0, ErrTimeout
 	}
 	n := len(c.pending)
 	if len(c.chunks) > 0 {
